@@ -4,3 +4,5 @@ import MpModel.DrvHash
 import MpModel.Complex
 import MpModel.Interval
 import MpModel.DrvCplxIv
+import MpModel.Str
+import MpModel.DrvStr
